@@ -177,7 +177,7 @@ class CreateArray:
         dtype = P.pick(rng, run.knobs["dtypes"])
         rank = rng.randint(1, run.knobs["max_rank"])
         shape = [rng.randint(run.knobs["min_extent"], run.knobs["max_extent"]) for _ in range(rank)]
-        route = P.pick(rng, ["data", "shape", "both"])
+        route = P.pick(rng, ["data", "shape", "both", "cast"])
         return {"op": "create_array", "blk": idx(rng), "name": gen_name(run, rng, names_of(b.data_arrays)),
                 "type": P.pick(rng, P.TYPES), "dtype": dtype, "shape": shape,
                 "vseed": rng.randrange(1, 1 << 30) if rng.random() < run.knobs["extreme_rate"] else 0,
@@ -209,7 +209,14 @@ class CreateArray:
             else:
                 call = lambda: bh.create_data_array(o["name"], o["type"], dtype=nixdt,  # noqa
                                                     data=data.astype(str) if data.size else np.empty(shape, dtype=str), **kw)
-        elif route == "data":
+        elif route == "cast" and dtype != "bool":
+            # data of another numeric element type than the one asked for: the argument wins.
+            # (values are small integers, representable in every numeric type)
+            src = np.float64 if np.dtype(dtype).kind in "iu" else np.int64
+            small = (np.arange(int(np.prod(shape)) if shape else 1) % 7).reshape(shape)
+            data = small.astype(np.dtype(dtype))
+            call = lambda: bh.create_data_array(o["name"], o["type"], dtype=nixdt, data=small.astype(src), **kw)  # noqa
+        elif route in ("data", "cast"):
             call = lambda: bh.create_data_array(o["name"], o["type"], data=data, **kw)  # noqa
         elif route == "shape":
             call = lambda: bh.create_data_array(o["name"], o["type"], dtype=nixdt, shape=shape, **kw)  # noqa
@@ -461,6 +468,31 @@ class LinkDim:
         if d.dimension_type == "range":
             d._ticks = None
         run.stats["dim_linked"] += 1
+        return res(OK, touch={d.parent_.id: "may"}, target=d.parent_)
+
+
+@op("unlink_dim")
+class UnlinkDim:
+    """Dimension.remove_link(): the link had replaced the explicit ticks / labels, so afterwards
+    the dimension has neither."""
+
+    def gen(self, run, rng):
+        dims = [d for d in run.enum("dim") if d.link is not None and d.link.target is not None]
+        if not dims:
+            return None
+        return {"op": "unlink_dim", "dim": idx(rng)}
+
+    def do(self, run, o):
+        dims = [d for d in run.enum("dim") if d.link is not None and d.link.target is not None]
+        if not dims:
+            return res(NOOP)
+        d = dims[o["dim"] % len(dims)]
+        dh = run.R(d, 0)
+        run.expect_ok(run.call(dh.remove_link), "unlink_dim")
+        d.link = None
+        d._ticks = None
+        d._labels = None
+        run.stats["dim_unlinked"] += 1
         return res(OK, touch={d.parent_.id: "may"}, target=d.parent_)
 
 
